@@ -47,16 +47,16 @@ func c11Setup(w *workspace, a []string, spoil ...string) runOpts {
 			case s[0] == 'b':
 				if container == "c" {
 					// "Part1#*.csv" alone would be read as book "Part1", sheet "*.csv": name the sheet
-					specs = append(specs, "Part"+s[1:]+"#*"+ext+"#Conf")
+					specs = append(specs, "Part.v"+s[1:]+"#*"+ext+"#Conf")
 				} else {
-					specs = append(specs, "Part"+s[1:]+ext)
+					specs = append(specs, "Part.v"+s[1:]+ext)
 				}
 			case s[0] == 's':
 				f := strings.SplitN(s[1:], "/", 2)
 				if container == "c" {
-					specs = append(specs, "Part"+f[0]+"#*"+ext+"#"+f[1])
+					specs = append(specs, "Part.v"+f[0]+"#*"+ext+"#"+f[1])
 				} else {
-					specs = append(specs, "Part"+f[0]+ext+"#"+f[1])
+					specs = append(specs, "Part.v"+f[0]+ext+"#"+f[1])
 				}
 			}
 		}
@@ -89,7 +89,8 @@ func c11Setup(w *workspace, a []string, spoil ...string) runOpts {
 	write(bookSpec{Name: "Main", Sheets: []sheetSpec{{Name: "Conf", Rows: spoilRows("main", c11Rows(a[3])), Meta: meta}}})
 	if a[4] != "" {
 		for i, b := range strings.Split(a[4], ";") {
-			bk := bookSpec{Name: "Part" + strconv.Itoa(i+1), NoMeta: true}
+			// a dot in the book name: output files are named <Book>_<Sheet>, whatever the book is called
+			bk := bookSpec{Name: "Part.v" + strconv.Itoa(i+1), NoMeta: true}
 			for _, sh := range strings.Split(b, "&") {
 				f := strings.SplitN(sh, "=", 2)
 				bk.Sheets = append(bk.Sheets, sheetSpec{Name: f[0], Rows: spoilRows("p"+strconv.Itoa(i+1)+"/"+f[0], c11Rows(f[1]))})
@@ -134,7 +135,7 @@ func implC11Spec(a []string) string {
 			es = append(es, k+"="+v.Name)
 		}
 		sort.Strings(es)
-		files = append(files, strings.TrimSuffix(e.Name(), ".json")+"{"+strings.Join(es, ",")+"}")
+		files = append(files, strings.Replace(strings.TrimSuffix(e.Name(), ".json"), "Part.v", "Part", 1)+"{"+strings.Join(es, ",")+"}")
 	}
 	sort.Strings(files)
 	return "ok " + strings.Join(files, ";")
